@@ -14,7 +14,7 @@ LEVELS = {
     "C01": "model_checking", "C02": "model_checking", "C03": "model_checking", "C04": "exploration",
     "C05": "model_checking", "C06": "model_checking", "C07": "model_checking", "C08": "model_checking",
     "C09": "model_checking", "C10": "model_checking", "C11": "model_checking", "C12": "model_checking",
-    "C13": "model_checking", "C14": "model_checking", "C15": "model_checking", "C16": "model_checking",
+    "C13": "model_checking", "C14": "model_checking", "C15": "exploration", "C16": "model_checking",
     "C17": "model_checking", "C18": "model_checking", "C19": "model_checking", "C20": "model_checking",
 }
 
